@@ -90,3 +90,64 @@ for _k in RETAG:
 for _k, _c in REGISTRY.contracts.items():
     if P in _c.props and _c.verify and _c.replay is None and _k.startswith(B):
         _c.replay = _REPLAY_NODES17
+
+# ---------------------------------------------------------------- powers (Box-Cox, regression likelihood)
+field_type('PowerConstant', 'exponent', 'float')
+field_type('PowerConstant', 'integer_exponent', 'int | None')
+field_type('Elem', 'keyExpression', 'Expression')
+field_type('Elem', 'dict_of_expressions', 'dict[int, Expression]')
+
+
+def powc(v, e):
+    """value of PowerConstant(child of value v, exponent e): 0 at 0 (also for e <= 0), v ** e for v > 0, v ** int(e) for a
+    negative base and an integer exponent (undefined otherwise: the evaluator raises)"""
+    return f"ite({v} == 0, 0.0, ite({v} > 0, {v} ** {e}, {v} ** int({e})))"
+
+
+contract(B + 'unary_expressions.PowerConstant.get_value', P,
+         requires={'domain': f'{C} >= 0 or self.integer_exponent is not None'},
+         ensures={'sem': f"result == ite({C} == 0, 0.0, ite({C} > 0, {C} ** self.exponent, {C} ** typed(self.integer_exponent, 'int')))"},
+         modifies=[])
+contract(B + 'unary_expressions.PowerConstant.__init__', P, types={'exponent': 'float'},
+         modifies=_EXPR_FIELDS + ['self.child', 'self.exponent', 'self.integer_exponent'],
+         raises={'TypeError': N._NOT_OPERAND.format('child')},
+         ensures={'value': f"implies(c05c_num(child) >= 0 or is_int(exponent), c05c_val(self) == {powc('c05c_num(child)', 'exponent')})"})
+# x ** y: a number or a Numeric node as exponent gives a PowerConstant node, another expression a Power node
+_NUMERIC_NODE = "typed(other, 'Numeric')"
+contract(B + 'base_expressions.Expression.__pow__', P, pure=True, returns='Expression', exact_self=False,
+         raises={'BiogemeError': N._BAD},
+         ensures={'number_exponent': "implies(is_numeric(other) and (c05c_val(self) >= 0 or is_int(c05c_num(other))), "
+                                     f"c05c_val(result) == {powc('c05c_val(self)', 'c05c_num(other)')})",
+                  'numeric_node_exponent': f"implies(isinstance(other, Numeric) and (c05c_val(self) >= 0 or is_int({_NUMERIC_NODE}.value)), "
+                                           f"c05c_val(result) == {powc('c05c_val(self)', _NUMERIC_NODE + '.value')})",
+                  'expression_exponent': "implies(isinstance(other, Expression) and not isinstance(other, Numeric), "
+                                         "c05c_val(result) == c05c_val(self) ** c05c_num(other))"},
+         note='pure: the node built by the operator is a function of the operands (allocation abstracted)')
+_KEY = "int(self.keyExpression.get_value())"
+contract(B + 'nary_expressions.Elem.get_value', P, modifies=[],
+         raises={'BiogemeError': f'{_KEY} not in self.dict_of_expressions'},
+         ensures={'sem': f'result == self.dict_of_expressions[{_KEY}].get_value()'})
+for _k in (B + 'unary_expressions.PowerConstant.get_value', B + 'unary_expressions.PowerConstant.__init__',
+           B + 'base_expressions.Expression.__pow__', B + 'nary_expressions.Elem.get_value'):
+    REGISTRY.contracts[_k].replay = _REPLAY_NODES17
+
+# ---------------------------------------------------------------- Elem: selection of a dictionary entry by the value of a key expression
+_D = 'dict_of_expressions'
+_SD = 'self.dict_of_expressions'
+_KEYV = 'int(c05c_num(key_expression))'
+_ELEM_INV = {
+    'copied': f"forall(lambda q: keys_of({_D})[q] in {_SD} and {_SD}[keys_of({_D})[q]] is {_D}[keys_of({_D})[q]], 0, _k)",
+    'nothing_else': f"forall(lambda x: implies(x in {_SD}, x in {_D}), ty='int')",
+    'own_dict': f"{_SD} is not {_D} and len({_D}) == old(len({_D}))",
+    'key': 'c05c_val(self.keyExpression) == c05c_num(key_expression)',
+}
+contract(B + 'nary_expressions.Elem.__init__', P, types={_D: 'dict[int, Expression]'},
+         modifies=_EXPR_FIELDS + ['self.keyExpression', _SD],
+         raises={'TypeError': N._NOT_OPERAND.format('key_expression')},
+         ensures={'entries_by_key': f"forall(lambda x: implies(x in {_D}, x in {_SD} and {_SD}[x] is {_D}[x]), ty='int')",
+                  'nothing_else': _ELEM_INV['nothing_else'],
+                  'key': _ELEM_INV['key'],
+                  'value': f"implies({_KEYV} in {_D}, c05c_val(self) == c05c_val({_D}[{_KEYV}]))"},
+         invariants={1: {'clauses': dict(_ELEM_INV)}},
+         replay=_REPLAY_NODES17,
+         note='dictionary restricted to Expression values (the builders pass nodes)')
